@@ -17,6 +17,7 @@
 package cron
 
 import (
+	"encoding/json"
 	"errors"
 	"fmt"
 	"github.com/Comcast/rulio/core"
@@ -86,7 +87,12 @@ func AddHooks(ctx *core.Context, cronner Cronner, state core.State) error {
 
 		core.Log(core.INFO|CRON, ctx, "addHook", "id", id, "location", location, "schedule", schedule)
 
-		event := fmt.Sprintf(`{"trigger!":"%s"}`, id)
+		// As JSON: an id can contain a quote or a backslash.
+		idjs, err := json.Marshal(id)
+		if err != nil {
+			return err
+		}
+		event := fmt.Sprintf(`{"trigger!":%s}`, idjs)
 
 		se := &ScheduledEvent{
 			Id:       id,
